@@ -510,4 +510,11 @@ def rule_g(ctx: Ctx) -> None:
     options_reach_both(ctx, 'C13.g')
 
 
-RULES = [rule_a, rule_b, rule_c, rule_d, rule_e, rule_f, rule_g]
+def rule_h(ctx: Ctx) -> None:
+    """The defuse mode lives in the settings of the global maps: a copy of the maps (and the schemas re-created for it) must carry the same settings, or the copy
+    silently parses with defuse='remote' what the original refuses.  C09.h body: a __copy__ that goes through the constructor hands over every option."""
+    from .c09 import rule_h as copy_keeps_options
+    copy_keeps_options(ctx, 'C13.h')
+
+
+RULES = [rule_a, rule_b, rule_c, rule_d, rule_e, rule_f, rule_g, rule_h]
